@@ -1,0 +1,71 @@
+//go:build verif
+
+package transp
+
+import (
+	"github.com/paulsonkoly/chess-3/board"
+	"github.com/paulsonkoly/chess-3/move"
+
+	. "github.com/paulsonkoly/chess-3/chess"
+)
+
+// Verification hooks (build tag verif): read-only views of the table.
+
+// VerifEntry is one lane of a bucket.
+type VerifEntry struct {
+	Sig   uint16
+	Move  move.Move
+	Value Score // as stored, without ply correction
+	Depth Depth
+	Type  Type
+	Gen   Gen
+}
+
+// VerifNumBuckets is the number of buckets of t.
+func VerifNumBuckets(t *Table) int { return len(t.data) }
+
+// VerifBucketSig returns the bucket index and the signature used for hash.
+func VerifBucketSig(t *Table, hash board.Hash) (int, uint16) {
+	return t.bucketIx(hash), uint16(partialKey(hash >> (64 - partialKeyBits)))
+}
+
+// VerifBucket returns the four lanes of bucket ix.
+func VerifBucket(t *Table, ix int) [bucketEntryCnt]VerifEntry {
+	var res [bucketEntryCnt]VerifEntry
+	b := &t.data[ix]
+	for i := range bucketEntryCnt {
+		e := b.entries[i]
+		res[i] = VerifEntry{
+			Sig:   uint16(b.pKeys >> (i * partialKeyBits)),
+			Move:  e.Move,
+			Value: e.value,
+			Depth: e.Depth(),
+			Type:  e.Type(),
+			Gen:   e.gen,
+		}
+	}
+	return res
+}
+
+// VerifMatch64 exposes match64.
+func VerifMatch64(w uint64, key uint16) (int, bool) { return match64(w, partialKey(key)) }
+
+// VerifDigest is an FNV-1a digest of the whole table contents.
+func VerifDigest(t *Table) uint64 {
+	h := uint64(14695981039346656037)
+	mix := func(v uint64) {
+		for i := 0; i < 8; i++ {
+			h ^= v & 0xff
+			h *= 1099511628211
+			v >>= 8
+		}
+	}
+	for i := range t.data {
+		b := &t.data[i]
+		mix(b.pKeys)
+		for _, e := range b.entries {
+			mix(uint64(e.Move) | uint64(uint16(e.value))<<16 | uint64(e.packed)<<32 | uint64(e.gen)<<40)
+		}
+	}
+	return h
+}
